@@ -95,9 +95,9 @@ func cmpNum(a, b string) int {
 type VersionVerdict int
 
 const (
-	VersionAccept VersionVerdict = iota // compatible, or check skipped
-	VersionReject                       // incompatible versions
-	VersionParseError                   // V is not a semantic version string without leading v
+	VersionAccept     VersionVerdict = iota // compatible, or check skipped
+	VersionReject                           // incompatible versions
+	VersionParseError                       // V is not a semantic version string without leading v
 )
 
 func (v VersionVerdict) String() string {
